@@ -4,7 +4,7 @@ EXTENDS Writer, Json
 CfgsQuick == [maxRows : {0, 1, 2, 3}, ver : {1, 2}, codec : {"none", "snappy"},
               enc : {"default"}, dict : {"inf"}, pagebuf : {"default"}, wbuf : {"default"}, stats : {"default"}]
 CfgsFull  == [maxRows : {0, 1, 2, 3, 70}, ver : {1, 2}, codec : {"none", "snappy", "gzip", "zstd", "lz4", "brotli"},
-              enc : {"default", "plain", "delta", "split"}, dict : {"inf", "tiny", "off"},
+              enc : {"default", "plain", "delta", "split", "dict"}, dict : {"inf", "tiny", "off"},
               pagebuf : {"default", "tiny"}, wbuf : {"default", "zero", "small"}, stats : {"default", "off", "nobounds"}]
 \* -simulate: exactly one scenario per behaviour, printed by a final action
 Ended == Len(hist) > 0 /\ hist[Len(hist)].op = "end"
